@@ -205,6 +205,46 @@ pub fn eval(c: &Case) -> Eval {
 }
 
 // ---------------------------------------------------------------------------------------------------------
+// long streams: tens of thousands of items of negligible weight between the items that matter (per-item state such as
+// the lazily reset permutation must not leak across 2^16 items)
+
+#[derive(Clone, Debug, Serialize, Deserialize)]
+pub struct LongCase {
+    pub variant: Variant,
+    pub m: usize,
+    pub heavy: Vec<(u64, F)>,
+    pub filler: u32,
+    pub seed: u64,
+}
+
+fn long_strategy() -> impl Strategy<Value = LongCase> {
+    (prop::sample::select(vec![Variant::P2, Variant::P3]), 2usize..40, weighted_set(2, 6, false), prop_oneof![(0u32..10).prop_map(|d| 65_536 - d), (0u32..10).prop_map(|d| 131_072 - d), 65_000u32..66_000], any::<u64>()).prop_map(|(variant, m, heavy, filler, seed)| LongCase { variant, m, heavy, filler, seed })
+}
+
+pub fn long_eval(c: &LongCase) -> Eval {
+    let heavy: Vec<(u64, f64)> = c.heavy.iter().map(|p| (p.0 >> 1, p.1 .0)).collect();
+    let wmin = heavy.iter().map(|p| p.1).fold(f64::MAX, f64::min);
+    let tiny: Vec<(u64, f64)> = (0..c.filler as u64).map(|i| ((splitmix64(c.seed.wrapping_add(i)) >> 1) | (1 << 62), wmin * 1e-40)).collect();
+    // presentation 1: heavy items first; 2: first heavy item, the fillers, the other heavy items; 3: fillers first
+    let mut s1 = heavy.clone();
+    s1.extend(tiny.iter().cloned());
+    let mut s2 = vec![heavy[0]];
+    s2.extend(tiny.iter().cloned());
+    s2.extend(heavy[1..].iter().cloned());
+    let mut s3 = tiny.clone();
+    s3.extend(heavy.iter().cloned());
+    let run = |st: &Vec<(u64, f64)>| run_pmh(c.variant, HasherKind::Fnv, c.m, &[(Entry::Item, st.clone())]);
+    let (o1, o2, o3) = (run(&s1), run(&s2), run(&s3));
+    let mut ties = 0;
+    same_sig(&o1, &o2, &format!("{:?} m={}: {} items of negligible weight streamed between the {} heavy items vs after them", c.variant, c.m, c.filler, heavy.len()), &mut ties)?;
+    same_sig(&o1, &o3, &format!("{:?} m={}: {} items of negligible weight streamed before the {} heavy items vs after them", c.variant, c.m, c.filler, heavy.len()), &mut ties)?;
+    // the fillers are so light that the signature is (with overwhelming probability) that of the heavy items alone
+    let oh = run(&heavy);
+    let same = (0..c.m).all(|k| oh.sig[k] == o1.sig[k]);
+    Ok(Report::new(true).class(format!("{:?}", c.variant)).class_if(same, "signature-equals-that-of-the-heavy-items"))
+}
+
+// ---------------------------------------------------------------------------------------------------------
 // ProbMinHash3aSha over keys that are not Copy (String, Vec<u8>)
 
 #[derive(Clone, Debug, Serialize, Deserialize)]
@@ -272,13 +312,18 @@ pub fn run(ctx: &Ctx) {
     super::run_fixed_tier(ctx, replay);
     let (cases, max_m, max_n) = ctx.tier.pick((200_000, 256, 80), (5_000_000, 1024, 200));
     ctx.drive("plan", cases, 16, 3000, || strategy(max_m, max_n), eval);
+    let cases = ctx.tier.pick(64, 1280);
+    ctx.drive("long-streams", cases, 16, 6, long_strategy, long_eval);
     // the Sha variant over keys that are not Copy
     let cases = ctx.tier.pick(20_000, 400_000);
     ctx.drive("sha-keys", cases, 16, 2000, || sha_strategy(64), sha_eval);
 }
 
 pub fn replay(ctx: &Ctx, sub: &str, case: &Value) -> Result<(), String> {
-    if sub == "sha-keys" {
+    if sub == "long-streams" {
+        let c: LongCase = parse_case(case)?;
+        ctx.run_fixed(sub, &c, long_eval);
+    } else if sub == "sha-keys" {
         let c: ShaCase = parse_case(case)?;
         ctx.run_fixed(sub, &c, sha_eval);
     } else {
